@@ -211,6 +211,11 @@ func (c09) Exec(plan any, c *Ctx) *Violation {
 		switch {
 		case r1.Panic != "":
 			return &Violation{Class: "panic", Key: p.key(), Detail: step + ": " + r1.Panic}
+		case r1.WH > 0:
+			// the diagnostic "ok status" must REACH the client: with a second WriteHeader call,
+			// which status is left depends on the writer (net/http keeps the first and logs
+			// "superfluous response.WriteHeader call"; a wrapper may keep the last)
+			return &Violation{Class: "superfluous-writeheader", Key: p.key(), Detail: fmt.Sprintf("after %s: the failing-preflight probe %s made the middleware call WriteHeader %d times: %s", step, q, r1.WH+1, r1)}
 		case isOK(r1.Status) && hasACHeader(r1.Headers):
 			got = true
 		case r1.Status == 403 && !hasACHeader(r1.Headers):
